@@ -25,6 +25,9 @@ struct Obs {
     fate: HashMap<OrderId, &'static str>, // C08: resting / removed / filled - every order handed in has exactly one
 }
 
+/// only the round-trip legs (and the aggregate clauses) on a given level
+pub fn legs_only(l: &PriceLevel, rep: &mut Report, step: usize) { c01(l, rep, step, "generated content", true); }
+
 fn c01(l: &PriceLevel, rep: &mut Report, step: usize, what: &str, legs: bool) {
     let ls = l.iter_orders();
     let sv: u128 = ls.iter().map(|o| o.visible_quantity() as u128).sum();
